@@ -21,7 +21,7 @@ from pysym.harness import Check, Recorder
 from bibtexparser.library import Library
 from bibtexparser import model as M
 
-UNIVERSE = "EESSPXF"     # kinds of the universe blocks u0..u6
+UNIVERSE = "EESSPXFX"    # kinds of the universe blocks u0..u7 (u7 is a second object EQUAL in value to u5)
 
 
 def mk_universe(keys):
@@ -36,7 +36,7 @@ def mk_universe(keys):
         elif kd == "P":
             u.append(M.Preamble("p", i, "r" + str(i)))
         elif kd == "X":
-            u.append(M.ExplicitComment("c", i, "r" + str(i)))
+            u.append(M.ExplicitComment("c", 5, "r5"))       # u5 == u7 (Block.__eq__), u5 is not u7
         else:
             u.append(M.ParsingFailedBlock(Exception("e"), i, "r" + str(i)))
         i += 1
@@ -44,10 +44,16 @@ def mk_universe(keys):
 
 
 def idx_of(lst, x):
-    """first index with lst[i] == x (list.index semantics) or -1"""
+    """position of x in lst: of the object itself when it is held, else of the first block equal to it; -1 if none
+    ("remove x", "replace x ... keeping the position" speak about the block handed in)"""
     i = 0
     for y in lst:
-        if y is x or y == x:
+        if y is x:
+            return i
+        i += 1
+    i = 0
+    for y in lst:
+        if y == x:
             return i
         i += 1
     return -1
@@ -339,7 +345,7 @@ def op_space():
         ops.append(("addf", a))
     for a, b in ((("u", 0), ("u", 1)), (("u", 2), ("u", 3)), (("u", 0), ("u", 4)), (("u", 1), ("u", 0))):
         ops.append(("add2", a, b))
-    for a in us[:5] + hs:
+    for a in us[:5] + hs + [("u", 5), ("u", 7)]:
         ops.append(("remove", a))
     for a, b in ((("h", 0), ("h", 1)), (("h", 0), ("u", 6)), (("u", 0), ("u", 1)), (("u", 5), ("h", 0))):
         ops.append(("remove2", a, b))
@@ -347,6 +353,8 @@ def op_space():
         for new in (("u", 1), ("u", 3), ("u", 4), ("u", 0)):
             ops.append(("replace", old, new))
             ops.append(("replacef", old, new))
+    ops.append(("replace", ("u", 7), ("u", 4)))
+    ops.append(("replace", ("u", 5), ("u", 4)))
     return ops
 
 
@@ -368,7 +376,7 @@ def main():
         # depth 3: first call populates; depth 4: two populating calls from the core adds, then a non-add, then anything
         hist = [h for h in hist if len(h) <= 2 or (len(h) == 3 and h[0] in adds)
                 or (len(h) == 4 and h[0] in core and h[1] in core and h[2][0] not in ("add", "add2", "addf"))]
-    chk.bounds = {"universe": "u0,u1 Entry; u2,u3 String; u4 Preamble; u5 ExplicitComment; u6 ParsingFailedBlock; every Entry/String key one symbolic character over {a,b}",
+    chk.bounds = {"universe": "u0 Entry without fields, u1 Entry; u2 String with empty value, u3 String; u4 Preamble; u5 ExplicitComment; u6 ParsingFailedBlock; u7 a second ExplicitComment equal in value to u5; every Entry/String key one symbolic character over {a,b}",
                   "operations": f"{len(ops)} concrete operation shapes (add, add with fail_on_duplicate_key, add of a 2-list, remove, remove of a 2-list, replace in both fail modes; arguments = universe blocks or currently held blocks h0/h1)",
                   "histories": f"{len(hist)} histories of <= {depth} calls from the empty library"}
     chk.assumptions = ["histories longer than the bound are covered inductively only in the sense that every step is checked against the pre-state it actually runs from (per-step frame conditions + invariant), for the pre-states reachable within the bound",
